@@ -126,6 +126,9 @@ def classInst (p : List PSeg) : Option (Nat × Nat × List PSeg) :=
   | .logical 0 c :: .logical 4 i :: rest => some (c, i, rest)
   | _ => none
 
+/-- session handles are 32-bit and never 0 (0 = "no session" on the wire) -/
+def nextHandle (s : Nat) : Nat := if (s + 0x111) % 2 ^ 32 = 0 then 0x111 else (s + 0x111) % 2 ^ 32
+
 /-! ### connection manager -/
 
 structure FoReq where
@@ -180,7 +183,7 @@ def forwardOpen (b : Base) (session : Nat) (large : Bool) (d : Bytes) : Base × 
       let cid := b.nextCid
       let c : Conn := { cid := cid, toId := r.toId, session := session, size := r.size, large := large,
                         serial := r.serial, vendor := r.vendor, origSerial := r.origSerial, lastSeq := none, route := r.path }
-      let b' := { b with conns := b.conns ++ [c], nextCid := b.nextCid + 0x10001 }
+      let b' := { b with conns := b.conns ++ [c], nextCid := (b.nextCid + 0x10001) % 2 ^ 32 }
       (b'.event (.fo large r.size true),
        { data := le 4 cid ++ le 4 r.toId ++ le 2 r.serial ++ le 2 r.vendor ++ le 4 r.origSerial ++
                  le 4 0x00204001 ++ le 4 0x00204001 ++ [0, 0] })
@@ -304,7 +307,7 @@ def handle {σ} (hook : ObjHook σ) (t : Target σ) (raw : Bytes) : Target σ ×
         ({ t with base := b.event (.encap CMD_REGISTER 0 false) }, some (frame CMD_REGISTER 0 0x02 f.context f.body))
       else
         let s := b.nextSession
-        ({ t with base := { b with sessions := b.sessions ++ [s], nextSession := s + 0x111 }.event (.encap CMD_REGISTER s true) },
+        ({ t with base := { b with sessions := b.sessions ++ [s], nextSession := nextHandle s }.event (.encap CMD_REGISTER s true) },
          some (frame CMD_REGISTER s 0 f.context f.body))
     else if f.command = CMD_LIST_IDENTITY then
       if f.body ≠ [] then (bad "list identity with a body", none)
